@@ -613,23 +613,48 @@ func ruleLoadedMarkAfterLoads(c *Check, rule string) {
 		n := engine.CalleeName(call)
 		return strings.HasSuffix(n, ").Wait") || strings.HasSuffix(n, ".SubmitErr") || strings.HasSuffix(n, ".Submit")
 	}
+	isMark := func(in ssa.Instruction) bool {
+		st, ok := in.(*ssa.Store)
+		if !ok {
+			return false
+		}
+		fa, ok := st.Addr.(*ssa.FieldAddr)
+		if !ok || engine.FieldKeyOf(fa.X.Type(), fa.Field) != key {
+			return false
+		}
+		k, isK := engine.BoolConst(st.Val)
+		return isK && k
+	}
+	// the mark may be set by a helper of the restore function (a call that can reach the store counts as the mark)
+	var mayMark func(h *ssa.Function, depth int) bool
+	mayMark = func(h *ssa.Function, depth int) bool {
+		if h == nil || len(h.Blocks) == 0 || depth <= 0 || !engine.IsFirstParty(pkgPathOf(h)) {
+			return false
+		}
+		for _, b := range h.Blocks {
+			for _, in := range b.Instrs {
+				if isMark(in) {
+					return true
+				}
+				if call, ok := in.(*ssa.Call); ok && mayMark(call.Call.StaticCallee(), depth-1) {
+					return true
+				}
+			}
+		}
+		return false
+	}
 	n := 0
 	for _, b := range lo.Blocks {
 		for _, in := range b.Instrs {
-			st, ok := in.(*ssa.Store)
-			if !ok {
-				continue
-			}
-			fa, ok := st.Addr.(*ssa.FieldAddr)
-			if !ok || engine.FieldKeyOf(fa.X.Type(), fa.Field) != key {
-				continue
-			}
-			if k, isK := engine.BoolConst(st.Val); !isK || !k {
-				continue
+			if !isMark(in) {
+				call, ok := in.(*ssa.Call)
+				if !ok || !mayMark(call.Call.StaticCallee(), 2) {
+					continue
+				}
 			}
 			n++
-			reach, at := engine.PathExists(lo, st, pending, engine.PathQuery{Shallow: true})
-			pos := c.P.InstrPos(st)
+			reach, at := engine.PathExists(lo, in, pending, engine.PathQuery{DeepTo: true})
+			pos := c.P.InstrPos(in)
 			what := ""
 			if at != nil {
 				what = " (" + c.P.InstrPos(at) + ")"
